@@ -7,69 +7,69 @@ V = os.path.dirname(os.path.dirname(os.path.abspath(__file__)))
 MC = "model_checking"
 # id -> (technique, level text, level note)
 CHECKS = {
- "C01": ("bounded exhaustive input enumeration (seeds x all gap/trivia substitutions, all token soups <= n, all library sentences <= n) with a tiling invariant evaluated on every accepted tree",
+ "C01": ("bounded exhaustive input enumeration (seeds x all gap/trivia substitutions, all token soups <= n, every sentence of the reference grammar incl. all literal forms, library-map soup <= n, raw parser seam) with a tiling invariant evaluated on every accepted tree",
          "Every input of a stated finite space is parsed through the real entry points and the lossless-tiling invariant (offset chain, char boundaries, line numbers, get_str of every node) is evaluated on every accepted tree; no sampling.",
          "Trusted: the harness, preprocess_str as provider of the reference text, the vendored seeds for reach. Bounds in evidence.parts."),
 
- "C12": ("bounded exhaustive enumeration: every accepted seed x 16 trivia forms x (all gaps | each single gap | `resetall before each description), 8 rejected probes x all ordered pairs of 20 leading forms; oracle = acceptance and whitespace-free skeleton equal to the original's",
+ "C12": ("bounded exhaustive enumeration: every accepted seed or default grammar sentence x 16 trivia forms x (all gaps | each single gap), `resetall before each description followed by each trivia form, sources whose descriptions share macros x `resetall placements, 8 rejected probes x all ordered pairs of 20 leading forms, all comment shapes over small alphabets; oracle = acceptance and whitespace-free skeleton equal to the original's",
          "Every (program, gap assignment) of the stated finite space is parsed by the real parser and compared with the original parse; no sampling.",
          "Trusted: the harness; the token/gap layout is derived from the accepted tree of the original; the blank ending an escaped identifier / bare library path is part of that token. Two known findings (form feed, memo eviction) are matched by re-execution signatures."),
- "C15": ("bounded exhaustive enumeration of sources (seeds, seeds cut after every token, all token soups <= n, library sentences) each parsed in strict and incomplete mode; invariant + differential oracle",
+ "C15": ("bounded exhaustive enumeration of sources (seeds, seeds cut after every token, all token soups <= n, keyword-region programs, grammar sentences behind leading trivia, library sentences) each parsed in strict and incomplete mode, junk appended and glued, cut seeds through file / string / two-step routes x ignore_include; invariant + differential oracle",
          "Every source of the stated finite space is parsed in both modes; incomplete must not return Error::Parse, must tile a prefix, must equal strict where strict accepts, and must be insensitive to 4 appended junk suffixes.",
          "Trusted: the harness; junk suffixes (\\x01, ), ], \\x7f) are assumed unable to start or complete a description."),
- "C16": ("exhaustive per-node exploration of every accepted tree of the enumerated sources: event discipline, sub-iteration vs slice of the root pre-order, unwrap_node!/unwrap_locate! vs first match, get_str_trim vs recomputed span, and an independent pre-order taken from derive(Debug)",
+ "C16": ("exhaustive per-node exploration of every accepted tree of the enumerated sources: event discipline, sub-iteration vs slice of the root pre-order, views of iterators advanced by k steps and of several roots, unwrap_node!/unwrap_locate! vs first match, get_str / get_str_trim vs recomputed span, and an independent pre-order taken from derive(Debug)",
          "All trees of the stated finite input space, and in each tree all nodes, are checked against an independently computed pre-order; no sampling (quick tier strides nodes of trees > 400 nodes).",
          "Trusted: the harness; std's derive(Debug) field order as independent reference for struct nodes and leaves; node identity compared as (kind, leaf position)."),
 
- "C02": ("bounded exhaustive enumeration of a reference Annex A grammar kept as data (models/sv_grammar.txt): for every rule every combination of its own choices in its shortest context, every ordered pair of element alternatives of every repetition, x layouts x adversarial identifier pools; oracle = strict acceptance + one node of the stated kind per fact + one leaf per identifier/keyword token",
+ "C02": ("bounded exhaustive enumeration of a reference Annex A grammar kept as data (models/sv_grammar.txt, ~300 rules): for every rule every combination of its own choices in its shortest context, every ordered pair of element alternatives of every repetition, every identifier slot x every reserved word x suffixes, x layouts x adversarial identifier pools; oracle = strict acceptance + one node of the stated kind per fact + one leaf per identifier/keyword token",
          "All sentences of the stated finite space are parsed by the real parser and every fact the generator attached to them is checked in the tree; model (grammar) behaviours are all replayed against the implementation, not only counterexamples.",
          "Trusted: the reference grammar and its facts (written from Annex A, independent of the parser), SyntaxTree::get_origin to return to source coordinates, keyword list typed from Annex B. Facts admit several kinds where Annex A itself is ambiguous. Three known findings carry re-inspection signatures."),
- "C08": ("bounded exhaustive enumeration of adversarial inputs (all token soups <= n over 32/38 tokens, all character strings <= n over 12 characters, seeds cut after / without every token, directive seeds cut at every byte, file-level faults at 3 nesting levels) through every public entry point and every tree accessor under catch_unwind",
+ "C08": ("bounded exhaustive enumeration of adversarial inputs (all token soups <= n over 32/38 tokens, all character strings <= n over 12 characters, macro-body and include-name soups with non-ASCII pieces, intact / cut / token-deleted seeds, grammar sentences, directive seeds cut at every byte, file-level faults at 3 nesting levels) through every public entry point and every tree accessor under catch_unwind",
          "Every input of the stated finite space goes through preprocess_str (both strip settings), parse_sv_str / parse_lib_str (strict, incomplete, ignore_include), and every Ok tree is iterated, rendered and converted node by node; file faults are produced in real directories.",
          "Trusted: the harness. Aborts (stack overflow) kill the explorer; the driver then isolates the in-flight cases one per process. Permission errors cannot be produced as root."),
- "C14": ("bounded exhaustive fault enumeration: every accepted seed (pp fixed points) x every token boundary x 3 bad bytes, x every single bracket / block keyword deleted, the same through `include, and 8 pp programs x every line start x 9 lexical faults",
+ "C14": ("bounded exhaustive fault enumeration: every accepted seed / default grammar sentence / design element inside a keyword region of each of the 8 versions (pp fixed points) x every token boundary x 5 bad bytes, x every single bracket / block keyword deleted, mutants through the three strict routes x ignore_include, the same through `include, and 8 pp programs x every line start x 9 lexical faults",
          "Every (program, position, fault) of the stated finite space is executed; rejection, error variant, file and position are checked on each.",
          "Trusted: the harness; balancedness of brackets and block keywords in every sentence of the language; the end of an escaped identifier is not a boundary."),
 
- "C03": ("bounded exhaustive enumeration of structured preprocessor programs (origin profile: all sequences <= n of a 29-item alphabet; plus the C04/C05 profiles), each interpreted by a reference preprocessor that yields the provenance of every output token; every output byte is probed with origin()",
+ "C03": ("bounded exhaustive enumeration of structured preprocessor programs (origin profile: all sequences <= n of a 29-item alphabet; long programs; redefinitions; macros whose text holds directives; plus the C04/C05 profiles), each interpreted by a reference preprocessor that yields the provenance of every output token; every output byte is probed with origin()",
          "All programs of the stated finite space are run on the real preprocessor; every model prediction (token sequence with provenance) is replayed against the implementation, and the origin of every byte is compared with the model's provenance.",
          "Trusted: reference preprocessor models/ppref.rs and lexer models/lexref.rs; white space is only required to map to an equal byte of the same file with advancing offsets. Findings matched by emulation switches of the model."),
- "C04": ("bounded exhaustive enumeration of conditional-compilation programs (chains over {A, B, __LINE__} with 0-2 `elsif, optional `else, nesting, branch bodies with define/undef/undefined usage/missing include/comments; x 5 initial tables x layouts) against a reference preprocessor",
+ "C04": ("bounded exhaustive enumeration of conditional-compilation programs (chains over {A, B, __LINE__} with 0-2 `elsif, optional `else, nesting, branch bodies with define/undef/undefined usage/missing include/comments; macros whose text or actual argument holds directives; x 5 initial tables x layouts) against a reference preprocessor",
          "Every program of the stated finite space is interpreted by the model and run on the implementation; token sequences and errors are compared on all of them.",
          "Trusted: models/ppref.rs (IEEE 22.6 first-true-branch semantics), models/lexref.rs. The `elsif/predefined finding is matched by re-running the model with exactly that defect."),
- "C05": ("bounded exhaustive enumeration of define/usage programs (6 formal lists x all bodies <= n over a 13-token alphabet x 10 actual-argument forms x 3 definitions of a nested macro, plus 22 hand-picked shapes) against a reference preprocessor implementing IEEE 22.5.1",
+ "C05": ("bounded exhaustive enumeration of define/usage programs (6 formal lists x all bodies <= n over a 15-token alphabet x 10 actual-argument forms x 3 definitions of a nested macro, 30 hand-picked shapes, every ordered pair of definitions of one name, macros whose text holds directives) against a reference preprocessor implementing IEEE 22.5.1",
          "Every program of the stated finite space is interpreted by the model and run on the implementation; token sequences and error variants with payloads are compared on all of them.",
          "Trusted: models/ppref.rs (substitution, paste, `\", nested expansion at point of use, limit 64), models/lexref.rs. The model abstains where an expansion does not lex; surplus actuals are outside the statement."),
- "C06": ("exhaustive enumeration of all strings <= n over a 12-character alphabet and all sequences <= n of 16 lexical pieces, classified by a reference lexer (7-state DFA); identity + per-byte origin identity on directive-free well-formed ones; every successful output (also of all token soups with directives) fed back once",
+ "C06": ("exhaustive enumeration of all strings <= n over a 12-character alphabet, all sequences <= n of 16 lexical pieces and of 12 directive pieces, long texts, classified by a reference lexer; identity + per-byte origin identity on directive-free well-formed ones; every successful output (also of all token soups with directives) fed back once",
          "The finite spaces are enumerated completely; the reference lexer's verdict is replayed against the implementation on every member.",
          "Trusted: models/lexref.rs. Three known findings (duplicated trivia after literals, directive after literal, glued expansion) are matched by exact emulation / input shape."),
- "C11": ("bounded exhaustive enumeration: returned define table vs the reference preprocessor's table on all C04/C05 programs, and all ordered pairs of a sub-profile: preprocess(f2, defines = preprocess(f1).defines) against preprocess(f1 ++ f2)",
+ "C11": ("bounded exhaustive enumeration: returned define table vs the reference preprocessor's table on all C04/C05 programs, redefinition pairs, directive-holding macros and the C10 include layouts, and all ordered pairs of a sub-profile: preprocess(f2, defines = preprocess(f1).defines) against preprocess(f1 ++ f2)",
          "All programs and all ordered pairs of the stated finite spaces are executed; tables, texts and errors are compared on each.",
          "Trusted: models/ppref.rs for part (a); part (b) is a differential relation on the implementation alone. SV_COV_* constants left aside, bodies compared trimmed."),
- "C18": ("bounded exhaustive enumeration: every C04/C05 program and every sequence <= n of 13 pieces in which comments are the only separators; each run with strip_comments off and on, differential oracle on tokens, table and error plus absence of comments",
+ "C18": ("bounded exhaustive enumeration: every C04/C05 program, directive-holding macros and every sequence <= n of 16 pieces in which comments are the only separators, stand inside actual arguments / restored parentheses or end the text; each run with strip_comments off and on, differential oracle on tokens, table and error plus absence of comments",
          "All inputs of the stated finite spaces are run twice and compared.",
          "Trusted: models/lexref.rs to tokenise outputs. Three known findings matched by signatures (fused tokens, comment attached to a literal, directive after a literal)."),
 
- "C07": ("explicit-state exploration of call histories on the real library: every sequence <= n of an 18-call alphabet executed on a fresh OS thread with the last result compared to the fresh-thread result, plus a breadth-first search over hooked thread-state fingerprints (memo occupancy, directive depth, keyword-version stack) with every call checked from every reachable state",
+ "C07": ("explicit-state exploration of call histories on the real library: every sequence <= n of a 30-call alphabet executed on a fresh OS thread with the last result compared to the fresh-thread result, plus a breadth-first search over hooked thread-state fingerprints (memo occupancy, directive depth, keyword-version stack) with every call checked from every reachable state",
          "All operation sequences up to the stated depth are executed on the real entry points (forced memo-key collisions through one reused buffer); the BFS reports states, transitions and the depth at which the frontier emptied.",
          "Trusted: the harness; the hook thread_state() as the complete mutable parser state apart from nom-recursive's monotone id table; state merging only in the BFS part."),
- "C09": ("exhaustive enumeration of recursion depths and cycle lengths (macro chains, function-like macro chains, include chains of depth 1..70, cycles of length 1..4, macro-expands-to-include cycles, grids of include depth x macro depth), one process per case with the default 8 MiB stack and a 20 s cap",
+ "C09": ("exhaustive enumeration of recursion depths and cycle lengths (macro chains, function-like macro chains, include chains of depth 1..70, chains behind sibling usages, cycles of length 1..4, macro-expands-to-include cycles, grids of include depth x macro depth), with strip_comments off and on, one process per case with the default 8 MiB stack and a 20 s cap",
          "Every depth / cycle of the stated finite space is executed on real files through preprocess(); result, number of Include wrappers and survival of the process are checked.",
          "Trusted: the harness; limit 64 as the property states. A process that dies is the violation."),
- "C10": ("bounded exhaustive enumeration over real directory layouts: every subset of {cwd, inc1, inc2} holding the file x 5 include-path lists x 7 contents x 3 directive styles x once/twice x ignore_include x relative/absolute x layouts, against the reference preprocessor with the property's search rule; plus same-line forms and `include inside expansions",
+ "C10": ("bounded exhaustive enumeration over real directory layouts: every subset of {cwd, inc1, inc2} holding the file x 5 include-path lists x 7 contents x 3 directive styles x once/twice x ignore_include x relative/absolute x 3 file endings x layouts, through preprocess (strip_comments off / on) and preprocess_str, against the reference preprocessor with the property's search rule; plus 27 same-line forms, 7 forms of the file-naming macro and `include inside expansions",
          "Every configuration of the stated finite space is laid out on disk and run through preprocess() and preprocess_str(); tokens, define table, origins and errors are compared with the model on each.",
          "Trusted: models/ppref.rs incl. the search rule as the property states it; process-wide chdir into a scratch directory with per-thread file names."),
- "C20": ("exhaustive enumeration of 44 inputs x ignore_include x allow_incomplete x strip_comments x 3 define tables x 4 include-path lists on real files; differential oracle between preprocess/preprocess_str and between the four routes to a tree (text, origin of every byte/leaf, tables with origins, errors)",
+ "C20": ("exhaustive enumeration of 52 inputs x ignore_include x allow_incomplete x strip_comments x 3 define tables x 4 include-path lists x top file in the working directory / a subdirectory, on real files, plus unreadable top files; differential oracle between preprocess/preprocess_str and between the routes to a tree (text, origin of every byte/leaf, tables with origins, errors)",
          "All configurations of the stated finite space are executed through every entry point and compared pairwise.",
          "Trusted: the harness. The copies of the included file differ per include path so that dropped or reordered arguments are observable."),
 
- "C13": ("bounded exhaustive enumeration: 8 version specifiers x 258 words x 7 identifier positions, the default set, all keyword-region programs <= n (nested, sequential, unclosed), leading-directive pairs, `define of every directive name; plus the invariant 'no SimpleIdentifier is reserved in the set in force' recomputed from the directive nodes on every tree of the corpus and the reference grammar",
+ "C13": ("bounded exhaustive enumeration: 8 version specifiers x 258 words x 7 identifier positions, the default set, all keyword-region programs <= n (nested, sequential, unclosed, with `define segments), leading-directive pairs, `define of every directive name; plus the invariant 'no SimpleIdentifier is reserved in the set in force' recomputed from the directive nodes on every tree of the corpus and the reference grammar",
          "Every (version, word, position) and every region program of the stated finite space is parsed; acceptance and the identifier leaves are compared with independently typed keyword tables.",
          "Trusted: models/keywords/*.txt (typed from Annex B / Table 22-x, not read from keywords.rs). Ten known findings, each a specific (position, word) pair."),
- "C17": ("bounded exhaustive sweep: inputs (seeds, default sentence of every grammar rule, keyword-region programs, left-recursive list shapes of 1..8 elements) x memo policies (FIFO capacities incl. the shipped one, periodic flush, forced misses) chosen through the verif hook; result compared with the unbounded-table run; hook counters prove that eviction happened",
+ "C17": ("bounded exhaustive sweep: inputs (seeds, default sentence of every grammar rule, keyword-region programs also opened inside a construct, left-recursive list shapes of 1..8 elements, ordered pairs of raw entry-point calls on one buffer) x memo policies (FIFO capacities incl. the shipped one, periodic flush, forced misses) chosen through the verif hook; result compared with the unbounded-table run; hook counters prove that eviction happened",
          "Every (input, policy) pair of the stated finite space is executed on the real parser with the real nom-packrat table behind a counting wrapper.",
          "Trusted: the verif wrapper delegates to nom_packrat::PackratStorage. Divergent pairs are attributed to the one known finding only if a child-process re-run in a diagnostic mode (flag-carrying spans bypass the table) reproduces the reference result."),
- "C19": ("stateless model checking of the real code under a token-passing scheduler over real OS threads: all schedules with <= 1 (quick) / 2-3 (thorough) preemptions at the library's hook points for 2- and 3-thread combinations of colliding inputs; every execution runs to completion and is compared with the solo results; failing schedules are replayed twice",
+ "C19": ("stateless model checking of the real code under a token-passing scheduler over real OS threads: all schedules with <= 1 (quick) / 2-3 (thorough) preemptions at the hook points of parser and preprocessor for 2- and 3-thread combinations of 14 colliding thread bodies; every execution runs to completion and is compared with the solo results; failing schedules are replayed twice",
          "All interleavings within the preemption bound at hook-point granularity are enumerated depth-first; schedules, points and the number of schedules with an open interference window are reported.",
          "Trusted: hook points placed at every read/write of the thread-local parser state (init, white_space, is_keyword, begin/end_directive, begin/end_keywords, clear_*, memo get/insert); interference is assumed observable at that granularity; a free-running 16-thread pass is sampling only."),
 }
